@@ -410,13 +410,9 @@ func reach(fn *ssa.Function, starts []*ssa.BasicBlock, deleted map[edge]bool, pr
 						continue
 					}
 					for _, ph := range phis {
-						if cb, ok := boolConst(ph.Edges[pi]); ok {
-							if cb {
-								env[ph] = 1
-							} else {
-								env[ph] = 2
-							}
-						} else if src, ok := ph.Edges[pi].(*ssa.Phi); ok && tracked.set[src] {
+						if fl := tracked.edgeFlag(ph, ph.Edges[pi]); fl != 0 {
+							env[ph] = fl
+						} else if src, ok := ph.Edges[pi].(*ssa.Phi); ok && tracked.set[src] && tracked.sameKind(ph, src) {
 							env[ph] = it.env[src]
 						} else {
 							env[ph] = 0
@@ -443,6 +439,7 @@ func reach(fn *ssa.Function, starts []*ssa.BasicBlock, deleted map[edge]bool, pr
 }
 
 type phiTrack struct {
+	intK    map[*ssa.Phi]int64 // integer flag phis: the one constant they are compared with
 	set     map[*ssa.Phi]bool
 	order   []*ssa.Phi
 	inBlock map[int][]*ssa.Phi
@@ -463,14 +460,60 @@ func (t *phiTrack) condPhi(cond ssa.Value) (*ssa.Phi, bool) {
 	if ph, ok := cond.(*ssa.Phi); ok && t.set[ph] {
 		return ph, neg
 	}
+	// integer flag: `v == K` / `v != K` where v is a tracked integer phi with comparison constant K
+	if bo, ok := cond.(*ssa.BinOp); ok && (bo.Op == token.EQL || bo.Op == token.NEQ) {
+		for _, pr := range [][2]ssa.Value{{bo.X, bo.Y}, {bo.Y, bo.X}} {
+			ph, ok := pr[0].(*ssa.Phi)
+			if !ok || !t.set[ph] {
+				continue
+			}
+			if k, ok := constInt(pr[1]); ok {
+				if tk, has := t.intK[ph]; has && tk == k {
+					if bo.Op == token.NEQ {
+						neg = !neg
+					}
+					return ph, neg
+				}
+			}
+		}
+	}
 	return nil, false
+}
+
+// edgeFlag: the tracked value of phi ph when entered through an edge carrying e
+// (1 = true / equal to the comparison constant, 2 = false / a different constant, 0 = unknown).
+func (t *phiTrack) edgeFlag(ph *ssa.Phi, e ssa.Value) int8 {
+	if k, isInt := t.intK[ph]; isInt {
+		if c, ok := constInt(e); ok {
+			if c == k {
+				return 1
+			}
+			return 2
+		}
+		return 0
+	}
+	if cb, ok := boolConst(e); ok {
+		if cb {
+			return 1
+		}
+		return 2
+	}
+	return 0
+}
+
+// sameKind: the flag of src can be copied to ph (both boolean, or both integer flags
+// compared with the same constant).
+func (t *phiTrack) sameKind(ph, src *ssa.Phi) bool {
+	k1, i1 := t.intK[ph]
+	k2, i2 := t.intK[src]
+	return i1 == i2 && (!i1 || k1 == k2)
 }
 
 func trackedPhis(fn *ssa.Function) *phiTrack {
 	if t, ok := phiTrackCache[fn]; ok {
 		return t
 	}
-	t := &phiTrack{set: map[*ssa.Phi]bool{}, inBlock: map[int][]*ssa.Phi{}}
+	t := &phiTrack{set: map[*ssa.Phi]bool{}, inBlock: map[int][]*ssa.Phi{}, intK: map[*ssa.Phi]int64{}}
 	for _, b := range fn.Blocks {
 		for _, in := range b.Instrs {
 			ph, ok := in.(*ssa.Phi)
@@ -478,6 +521,45 @@ func trackedPhis(fn *ssa.Function) *phiTrack {
 				break
 			}
 			if !isBool(ph.Type()) {
+				// an integer variable used as a flag: some edge is a constant and every
+				// ==/!= comparison of the phi is against one and the same constant
+				if bt, ok := ph.Type().Underlying().(*types.Basic); !ok || bt.Info()&types.IsInteger == 0 {
+					continue
+				}
+				hasConst := false
+				for _, e := range ph.Edges {
+					if _, ok := constInt(e); ok {
+						hasConst = true
+					}
+				}
+				var k int64
+				nk := 0
+				okK := true
+				for _, r := range *ph.Referrers() {
+					bo, ok := r.(*ssa.BinOp)
+					if !ok || (bo.Op != token.EQL && bo.Op != token.NEQ) {
+						continue
+					}
+					other := bo.Y
+					if other == ssa.Value(ph) {
+						other = bo.X
+					}
+					c, ok := constInt(other)
+					if !ok {
+						continue
+					}
+					if nk > 0 && c != k {
+						okK = false
+					}
+					k = c
+					nk++
+				}
+				if hasConst && nk > 0 && okK {
+					t.set[ph] = true
+					t.intK[ph] = k
+					t.order = append(t.order, ph)
+					t.inBlock[b.Index] = append(t.inBlock[b.Index], ph)
+				}
 				continue
 			}
 			hasConst := false
